@@ -374,6 +374,9 @@ def work(args):
                 images = None
                 break
             images[dom] = r["ok"]
+            # validation of the writer model behind C07_file_reads_back (counted in the evidence; the property is judged on the image)
+            wt = drv.call({"op": "ihex.write_image", "image": r["ok"]})
+            out.setdefault("writer", []).append(wt.get("ok") == text)
     if images is not None:
         if "ok" not in model or model["ok"] != images:
             out["mismatch"] = {"op": "storage.boot", "impl": _short(images), "model": _short(model)}
@@ -544,6 +547,8 @@ def run(tier: str, seed: int) -> int:
         res.count("outcome:" + o["impl"])
         if o["mismatch"]:
             res.mismatches.append({**o["mismatch"], "job": list(job)})
+        for same in o.get("writer", []):
+            res.count("writer-model:" + ("same-text" if same else "other-text"))
         for p in o["problems"]:
             res.spec_failures.append({"job": list(job), "what": p})
         if len(res.samples) < 4 and job[1] % 29 == 0:
